@@ -2,6 +2,7 @@
 reports (time domain, frequency domain, profile discretisation)."""
 import builtins
 import math
+import os
 import random
 import re
 import warnings
@@ -108,6 +109,23 @@ def _profile(layout):
     return p
 
 
+class _suspend:
+    """construction code without symbolic inputs (discretisation of a
+    concrete profile inside a channel constructor) runs outside the symbolic
+    context, like the import-time profiles"""
+
+    def __enter__(self):
+        self.prev = core._CUR
+        core._CUR = None
+
+    def __exit__(self, *a):
+        core._CUR = self.prev
+        return False
+
+
+_UNSET = object()
+
+
 # ---------------------------------------------------------------------------
 # harness-side fading generator
 _GEN = {}
@@ -132,15 +150,19 @@ def _stub_class():
             self.calls = []
             self.children = []
             self.clock = 0
+            self.offset = 0     # generations "already made" (fresh twins)
 
         def generate_more_samples(self, num_samples=None):
             shp = tuple(self.shape or ())
             if num_samples is not None:
                 shp = shp + (int(num_samples), )
-            k = len([c for c in self.calls if c[0] == 'gen'])
+            k = self.offset + self.gens()
             self._samples = self.A.carray('%s_%d' % (self.name, k), shp)
             self.calls.append(('gen', num_samples))
             self.clock += 1 if num_samples is None else int(num_samples)
+
+        def gens(self):
+            return len([c for c in self.calls if c[0] == 'gen'])
 
         def skip_samples_for_next_generation(self, num_samples):
             self.calls.append(('skip', num_samples))
@@ -398,66 +420,92 @@ def sel_class(spec, fft):
 # ---------------------------------------------------------------------------
 # channel construction (same code for symbolic and numeric runs)
 class _Chan:
-    def __init__(self, A, cfg, tag='g'):
-        self.A, self.cfg = A, cfg
+    def __init__(self, A, cfg, tag='g', pl=_UNSET, raw=None):
+        self.A, self.cfg, self.tag = A, cfg, tag
+        self.raw = raw
         kind, ant = cfg['kind'], cfg.get('ant')
+        build = cfg.get('build', 'disc')
         # channel memory = last discretised delay (expected value written
         # from the raw profile, not read from the object under check)
         if cfg.get('_raw'):
             raw, ts = cfg['_raw']
-            prof = raw.get_discretize_profile(ts)
+            pk = dict(channel_profile=raw.get_discretize_profile(ts))
             self.delays = disc_oracle(list(raw.tap_delays),
                                       list(raw.tap_powers_dB), ts)[0]
-        else:
-            prof = _profile(cfg['layout'])
+        elif build == 'disc':
+            # a channel built from an already discretised profile
+            pk = dict(channel_profile=_profile(cfg['layout']))
             self.delays = _expected_delays(cfg['layout'])
-        self.prof = prof
+        else:
+            d, pw, ts0 = LAYOUTS[cfg['layout']]
+            ts = cfg.get('ts') or ts0
+            self.delays = disc_oracle(d, pw, ts)[0]
+            if build == 'raw':   # raw profile object (may be shared) + Ts
+                if self.raw is None:
+                    with _suspend():
+                        self.raw = repo_module(FADING).TdlChannelProfile(
+                            np.array(pw), np.array(d), cfg['layout'])
+                pk = dict(channel_profile=self.raw, Ts=ts)
+            else:                # tap arrays + Ts
+                pk = dict(tap_powers_dB=np.array(pw), tap_delays=np.array(d),
+                          Ts=ts)
         self.mem = self.delays[-1]
+        if not A.symbolic:   # a Jakes generator must share the channel's Ts
+            A.Ts = (cfg['_raw'][1] if cfg.get('_raw') else
+                    cfg.get('ts') or LAYOUTS[cfg['layout']][2])
         Fm, Sm, Mm = (repo_module(FADING), repo_module(SINGLE),
                       repo_module(MULTI))
         self.N = None
-        if kind == 'tdl':
-            if ant and cfg.get('via') == 'set':
-                self.gen = A.gen(tag, None)
-                ch = Fm.TdlChannel(self.gen, prof)
-                ch.set_num_antennas(*ant)
-            elif ant:
-                self.gen = A.gen(tag, tuple(ant))
-                ch = Fm.TdlMimoChannel(self.gen, prof)
-            else:
-                self.gen = A.gen(tag, None)
-                ch = Fm.TdlChannel(self.gen, prof)
-        elif kind == 'su':
-            self.gen = A.gen(tag, None)
-            if cfg.get('via') == 'sumimo':
-                ch = Sm.SuMimoChannel(ant[0], self.gen, prof)
-            else:
-                ch = Sm.SuChannel(self.gen, prof)
-                if ant:
+        with _suspend():
+            if kind == 'tdl':
+                if ant and cfg.get('via') == 'set':
+                    self.gen = A.gen(tag, None)
+                    ch = Fm.TdlChannel(self.gen, **pk)
                     ch.set_num_antennas(*ant)
-        else:
-            self.gen = A.gen(tag, None)
-            self.N = tuple(cfg['N'])
-            if kind == 'mumimo':
-                ch = Mm.MuMimoChannel(self.N, ant[0], ant[1], self.gen, prof)
+                elif ant:
+                    self.gen = A.gen(tag, tuple(ant))
+                    ch = Fm.TdlMimoChannel(self.gen, **pk)
+                else:
+                    self.gen = A.gen(tag, None)
+                    ch = Fm.TdlChannel(self.gen, **pk)
+            elif kind == 'su':
+                self.gen = A.gen(tag, None)
+                if cfg.get('via') == 'sumimo':
+                    ch = Sm.SuMimoChannel(ant[0], self.gen, **pk)
+                else:
+                    ch = Sm.SuChannel(self.gen, **pk)
+                    if ant:
+                        ch.set_num_antennas(*ant)
             else:
-                ch = Mm.MuChannel(self.N, self.gen, prof)
+                self.gen = A.gen(tag, None)
+                self.N = tuple(cfg['N'])
+                if kind == 'mumimo':
+                    ch = Mm.MuMimoChannel(self.N, ant[0], ant[1], self.gen,
+                                          **pk)
+                else:
+                    ch = Mm.MuChannel(self.N, self.gen, **pk)
         self.rev = bool(cfg.get('sw'))
         if self.rev:
             ch.switched_direction = True
         self.ch = ch
         self.ant = ant
         self.pl = None
-        if cfg.get('pl'):
-            if self.N:
-                pl = np.empty(self.N, dtype=object if A.symbolic else float)
-                for i in range(self.N[0]):
-                    for j in range(self.N[1]):
-                        pl[i, j] = A.pathloss('p_%d_%d' % (i, j))
-            else:
-                pl = A.pathloss('p')
+        if pl is _UNSET:
+            pl = self.make_pl('p') if cfg.get('pl') else None
+        if pl is not None:
             ch.set_pathloss(pl)
             self.pl = pl
+
+    def make_pl(self, name):
+        """path loss (matrix) of fresh values in [0, 1] named after `name`"""
+        A = self.A
+        if not self.N:
+            return A.pathloss(name)
+        pl = np.empty(self.N, dtype=object if A.symbolic else float)
+        for i in range(self.N[0]):
+            for j in range(self.N[1]):
+                pl[i, j] = A.pathloss('%s_%d_%d' % (name, i, j))
+        return pl
 
     # number of transmitters / senders, antennas per sender, per recipient
     def senders(self):
@@ -510,6 +558,16 @@ class _Chan:
         # the object reports links in the original orientation (rx, tx)
         return (self.ch.get_last_impulse_response(i, j) if self.rev else
                 self.ch.get_last_impulse_response(j, i))
+
+    def phys(self, i, j):
+        """(rx, tx) of the link sender i -> recipient j as the object
+        numbers it (original orientation)"""
+        return (i, j) if self.rev else (j, i)
+
+    def response_phys(self, rx, tx):
+        if not self.N:
+            return self.ch.get_last_impulse_response()
+        return self.ch.get_last_impulse_response(rx, tx)
 
     def outputs(self, y):
         if not self.N:
@@ -635,7 +693,7 @@ def _send_freq(A, c, fft, spec, nb, pre, tagx):
         y = c.ch.corrupt_data_in_freq_domain(x, fft, sel_value(spec))
     except Exception as e:   # noqa: outcome of the code under test
         A.failed(pre + 'freq-domain', e)
-        return
+        return x, None, None
     outs = c.outputs(y)
     nout = c.nout()
     want = (n, ) if nout is None else (nout, n)
@@ -644,7 +702,7 @@ def _send_freq(A, c, fft, spec, nb, pre, tagx):
                                               want))
     dense = _check_response(A, c, pre, nb)
     if dense is None:
-        return
+        return x, outs, None
     refs = _reference(c, x, dense,
                       lambda h, xi: link_freq(A, h, xi, fft, sel, c.rev))
     for j, (o, r) in enumerate(zip(outs, refs)):
@@ -653,6 +711,7 @@ def _send_freq(A, c, fft, spec, nb, pre, tagx):
         A.fact(pre + 'fading-advance', g.clock - c0 == nb * fft,
                'generator advanced %d samples for %d blocks of %d' %
                (g.clock - c0, nb, fft))
+    return x, outs, dense
 
 
 def scenario_freq(A, cfg, only=None):
@@ -675,14 +734,165 @@ def scenario_freq(A, cfg, only=None):
             _send_time(A, c, x, 'sel%d:then-time:' % si)
 
 
+# ---------------------------------------------------------------------------
+# histories on ONE object: re-configuration between transmissions
+def _fresh_twin(A, c, snap):
+    """a fresh object put directly in the current configuration of `c`
+    (direction, antennas, path loss, profile), whose generators continue at
+    the generation numbers `snap`: it sees the very same taps"""
+    cfg = dict(c.cfg, ant=c.ant, sw=c.rev)
+    cfg.pop('pl', None)
+    via = cfg.pop('via', None)
+    if via == 'sumimo' and c.ant and c.ant[0] == c.ant[1] and \
+            c.ant == c.cfg.get('ant'):
+        cfg['via'] = via
+    F = _Chan(A, cfg, tag=c.tag, pl=c.pl)
+    for g, k in zip(F.stub_gens(), snap):
+        g.offset = k
+    return F
+
+
+def _fresh_compare(A, c, snap, pre, send, outs, dense):
+    if not c.stub_gens() or outs is None or dense is None:
+        return
+    F = _fresh_twin(A, c, snap)
+    outsF = F.outputs(send(F.ch))
+    for j, (o, r) in enumerate(zip(outs, outsF)):
+        A.eq(pre + 'fresh-output[%d]' % j, o, r)
+    for (i, j), h in sorted(dense.items()):
+        A.eq(pre + 'fresh-response[%d,%d]' % (i, j), h,
+             F.response(i, j).tap_values)
+
+
+def _reread(A, c, last, reps, pre):
+    """get_last_impulse_response() read again (several times): still the
+    response checked right after the last transmission"""
+    for r in range(reps):
+        links = sorted(last['phys']) if last else [(0, 0)]
+        for (rx, tx) in links:
+            try:
+                ir = c.response_phys(rx, tx)
+                h = ir.tap_values
+                sp = ir.tap_values_sparse
+            except Exception as e:  # noqa
+                if last is None and isinstance(e, RuntimeError):
+                    continue       # documented: nothing generated yet
+                A.failed(pre + 'reread', e)
+                return
+            if last is None or last['stale']:
+                continue           # path loss changed since: not compared
+            A.eq(pre + 'reread[%d,%d]#%d' % (rx, tx, r), h,
+                 last['phys'][(rx, tx)])
+            A.fact(pre + 'reread-samples', ir.num_samples == last['ns'] and
+                   sp.shape[-1] == last['ns'])
+
+
+def _freq_of_response(A, c, ffts, pre, last):
+    """get_freq_response of the reported response for several fft sizes in
+    a row = first-principles DFT (taps beyond the fft size alias)"""
+    links = sorted(last['phys']) if last else []
+    for (rx, tx) in links:
+        ir = c.response_phys(rx, tx)
+        h = ir.tap_values
+        for q, fft in enumerate(ffts):
+            got = ir.get_freq_response(fft)
+            ref = _zeros(A, (fft, ) + tuple(h.shape[1:]))
+            for idx in np.ndindex(*h.shape[1:]):
+                for k in range(fft):
+                    acc = A.zero
+                    for l in range(h.shape[0]):
+                        acc = acc + h[(l, ) + idx] * A.twiddle(
+                            fft, (k * l) % fft)
+                    ref[(k, ) + idx] = acc
+            A.eq(pre + 'freq-of-response[%d,%d]fft%d#%d' % (rx, tx, fft, q),
+                 got, ref)
+
+
+def scenario_history(A, cfg):
+    """ops on one object: ['t', n] time-domain transmission, ['f', fft, sel,
+    blocks] frequency-domain transmission, ['sw', b] direction, ['ant', nr,
+    nt] set_num_antennas, ['pl', tag|None] set_pathloss, ['ir', k] read the
+    response k times, ['fr', [fft...]] its frequency responses.  Every
+    transmission is compared with the first-principles convolution / DFT of
+    the response reported afterwards AND with a fresh object put directly
+    in the current configuration that sees the same taps."""
+    A.reseed()
+    c = _Chan(A, cfg)
+    _run_ops(A, c, cfg['ops'], '')
+    if cfg.get('ts2'):
+        # the SAME raw profile object discretised again with another
+        # sampling interval by a second channel; then the first one again
+        c2 = _Chan(A, dict(cfg, ts=cfg['ts2']), tag='h', raw=c.raw)
+        _run_ops(A, c2, cfg['ops'][:3], 're:')
+        _run_ops(A, c, cfg['ops'][:2], 'again:')
+        A.fact('raw-profile-untouched', c.raw.Ts is None and
+               not c.raw.is_discretized and
+               [float(v) for v in c.raw.tap_delays] ==
+               LAYOUTS[cfg['layout']][0])
+        try:
+            c.ch.channel_profile.get_discretize_profile(cfg['ts2'])
+            A.fact('discretised-profile-refuses-rediscretisation', False)
+        except RuntimeError:
+            A.fact('discretised-profile-refuses-rediscretisation', True)
+
+
+def _run_ops(A, c, ops, pre0):
+    last = None
+    for k, op in enumerate(ops):
+        pre = '%sop%d:' % (pre0, k)
+        what = op[0]
+        try:
+            if what == 'sw':
+                c.ch.switched_direction = bool(op[1])
+                c.rev = bool(op[1])
+            elif what == 'ant':
+                c.ch.set_num_antennas(op[1], op[2])
+                c.ant = None if op[1] is None else [op[1], op[2]]
+            elif what == 'pl':
+                pl = None if op[1] is None else c.make_pl('p' + op[1])
+                c.ch.set_pathloss(pl)
+                c.pl = pl
+                if last:
+                    last['stale'] = True
+        except Exception as e:  # noqa: outcome of the code under test
+            A.failed(pre + what, e)
+            return
+        if what in ('t', 'f'):
+            snap = [g.offset + g.gens() for g in c.stub_gens()]
+            try:
+                if what == 't':
+                    x = c.signal('%sx%d' % (pre0[:1], k), op[1])
+                    outs, dense = _send_time(A, c, x, pre)
+                    ns = op[1]
+                    send = lambda ch: ch.corrupt_data(x)
+                else:
+                    x, outs, dense = _send_freq(A, c, op[1], op[2], op[3], pre,
+                                                '%sX%d' % (pre0[:1], k))
+                    ns = op[3]
+                    send = lambda ch: ch.corrupt_data_in_freq_domain(
+                        x, op[1], sel_value(op[2]))
+                _fresh_compare(A, c, snap, pre, send, outs, dense)
+            except Exception as e:  # noqa
+                A.failed(pre + 'send', e)
+                return
+            last = None
+            if dense is not None:
+                last = dict(phys={c.phys(i, j): h for (i, j), h in
+                                  dense.items()}, stale=False, ns=ns)
+        elif what == 'ir':
+            _reread(A, c, last, op[1], pre)
+        elif what == 'fr':
+            _freq_of_response(A, c, op[1], pre, last)
+
+
 def _clause(name):
     """obligation name -> clause (prefixes and indices dropped)"""
     n = name.split(':')
     if 'exception' in n:
         return 'exception:' + n[n.index('exception') + 1]
-    base = [p for p in n if not re.fullmatch(r'n\d+|sel\d+|second|then-time',
+    base = [p for p in n if not re.fullmatch(r'n\d+|sel\d+|op\d+|second|then-time|re|again',
                                              p)]
-    return re.sub(r'\[.*\]$', '', base[-1]) if base else name
+    return re.sub(r'\[.*?\]|fft\d+|#\d+', '', base[-1]) if base else name
 
 
 # ---------------------------------------------------------------------------
@@ -701,7 +911,8 @@ class _ChannelHarness(Harness):
 
     def _numeric(self, cfg, seed, gen, model=None, only=None):
         A = _NumAlg(seed, gen, model)
-        A.Ts = LAYOUTS[cfg['layout']][2] if cfg.get('layout') else 1.0
+        A.Ts = (cfg.get('ts') or LAYOUTS[cfg['layout']][2]) if cfg.get(
+            'layout') else 1.0
         with warnings.catch_warnings():
             warnings.simplefilter('ignore')
             try:
@@ -1008,6 +1219,179 @@ class FreqDomain(_ChannelHarness):
                 raise AssertionError('COST259 fft=128: %r' % (A.detail, ))
             k += 1
         return k
+
+
+# ---------------------------------------------------------------------------
+# re-use of one object (second-round lesson: stale state after a setter)
+S_ALL, S_EVEN, S_REV = ['none'], ['slice', 0, None, 2], ['slice', None, None, -1]
+S_ARR, S_LST, S_ONE = ['array', [1, 3]], ['list', [3, 1, 0]], ['array', [2]]
+S_L8 = ['list', [7, 0, 3]]
+
+# direction toggled between transmissions (time and frequency domain)
+OPS_SW = [['t', 3], ['ir', 2], ['sw', 1], ['ir', 1], ['t', 2],
+          ['f', 4, S_EVEN, 2], ['fr', [4, 8, 4]], ['sw', 0],
+          ['f', 4, S_ARR, 1], ['ir', 2], ['t', 1], ['sw', 1],
+          ['f', 8, S_REV, 1], ['t', 2]]
+# set_num_antennas after transmissions
+OPS_ANT = [['t', 2], ['ir', 1], ['ant', 2, 1], ['ir', 1], ['t', 3],
+           ['f', 4, S_ALL, 1], ['fr', [4, 8]], ['ant', 1, 2],
+           ['f', 4, S_EVEN, 2], ['t', 2], ['ant', 2, 2], ['sw', 1], ['t', 2],
+           ['f', 4, S_LST, 1], ['ant', 1, 1], ['sw', 0], ['t', 3]]
+# path loss set / changed / removed between transmissions
+OPS_PL = [['t', 2], ['ir', 1], ['pl', 'a'], ['ir', 1], ['t', 3], ['ir', 2],
+          ['f', 4, S_EVEN, 2], ['ir', 1], ['fr', [4, 8, 4]], ['pl', 'b'],
+          ['ir', 1], ['f', 4, S_ARR, 1], ['ir', 1], ['t', 2]]
+OPS_PL_OFF = [['pl', None], ['ir', 1], ['t', 1], ['f', 4, S_ALL, 1],
+              ['ir', 1], ['pl', 'a'], ['f', 4, S_REV, 1], ['t', 2]]
+# time <-> frequency domain on one object, different lengths / selections
+OPS_TF = [['ir', 1], ['t', 3], ['f', 4, S_ALL, 2], ['ir', 2], ['t', 1],
+          ['f', 8, S_EVEN, 1], ['fr', [8, 4, 8]], ['f', 4, S_ARR, 2],
+          ['t', 4], ['ir', 1], ['f', 8, S_L8, 1], ['fr', [2, 4]], ['t', 2]]
+OPS_SHORT = [['t', 2], ['f', 8, S_EVEN, 1], ['ir', 1], ['t', 3],
+             ['f', 8, S_L8, 2]]
+
+FLAG = 'C03_HISTORY_FINDINGS'
+
+
+class History(_ChannelHarness):
+    """one channel object re-used and re-configured between transmissions
+    (direction, antennas, path loss, domain, repeated reads, profile built
+    in different ways): every transmission = first principles = a fresh
+    object put directly in the final configuration."""
+    name = 'history'
+    meth = 'history'
+    scenario = staticmethod(scenario_history)
+    functions = TimeDomain.functions + (
+        FADING + ':TdlChannel.corrupt_data_in_freq_domain',
+        FADING + ':TdlChannel.set_num_antennas',
+        FADING + ':TdlChannel.switched_direction',
+        FADING + ':TdlImpulseResponse.get_freq_response',
+        FADING + ':TdlImpulseResponse.concatenate_samples',
+        FADING + ':TdlChannelProfile.get_discretize_profile',
+        SINGLE + ':SuChannel.corrupt_data_in_freq_domain',
+        SINGLE + ':SuChannel.set_num_antennas',
+        SINGLE + ':SuChannel.switched_direction',
+        MULTI + ':MuChannel.corrupt_data_in_freq_domain',
+        MULTI + ':MuChannel.switched_direction')
+    bounds = ('histories of 5-17 operations on one object: transmissions in '
+              'the time domain (1-4 symbols) and the frequency domain (fft 4 '
+              'and 8, selections None / slices / index arrays / lists, 1-2 '
+              'blocks) interleaved with switched_direction toggles (Tdl/Su/'
+              'Mu MIMO and MuChannel), set_num_antennas (SISO -> 2x1 -> 1x2 '
+              '-> 2x2 -> 1x1 on TdlChannel, TdlMimoChannel, SuChannel), '
+              'set_pathloss set / changed / removed (Su, SuMimo, Mu, MuMimo), '
+              'repeated get_last_impulse_response() and get_freq_response '
+              'with fft sizes 4, 8, 4 (and 2 < channel length), channels '
+              'built from a discretised profile, from a shared raw profile '
+              'object + Ts (two different Ts) and from tap arrays + Ts; quick: '
+              'layout d013 / d13 / d02, thorough: 4 layouts, both initial '
+              'directions, antennas up to 3')
+    stubs = FreqDomain.stubs + (
+        'fresh twin: generators of the reference object continue at the '
+        'generation number of the re-used object, so both see the same '
+        'symbolic taps', 'constructors with concrete profiles run outside '
+        'the symbolic context')
+    outside = TimeDomain.outside + (
+        'reading the response between set_pathloss and the next '
+        'transmission (which scaling it should carry is not stated; the read '
+        'is executed but not compared)',
+        'MuChannel.set_pathloss(None) and set_num_antennas(None, None) '
+        '(documented but raising; configurations behind %s=1)' % FLAG)
+
+    def configs(self, tier):
+        q = tier == 'quick'
+        out = []
+        lays = ['d013'] if q else ['d013', 'd13', 'd02', 'merge']
+        sws = [False] if q else [False, True]
+        for lay in lays:
+            for sw0 in sws:
+                mimo = [[1, 2], [2, 1], [2, 2]] + ([] if q else [[2, 3],
+                                                                   [3, 2]])
+                # (1) direction toggled between transmissions
+                for ant in mimo:
+                    out.append(dict(kind='tdl', layout=lay, ant=ant, sw=sw0,
+                                    ops=OPS_SW))
+                out.append(dict(kind='su', layout=lay, ant=[2, 1], sw=sw0,
+                                pl=True, ops=OPS_SW))
+                out.append(dict(kind='su', layout=lay, ant=[2, 2], sw=sw0,
+                                via='sumimo', ops=OPS_SW))
+                out.append(dict(kind='mumimo', layout=lay, N=[2, 2],
+                                ant=[1, 2], sw=sw0, pl=True, ops=OPS_SW))
+                for N in ([2, 2], [1, 2]):
+                    out.append(dict(kind='mu', layout=lay, N=N, sw=sw0,
+                                    ops=OPS_SW))
+                if not q:
+                    out.append(dict(kind='mumimo', layout=lay, N=[2, 1],
+                                    ant=[2, 1], sw=sw0, ops=OPS_SW))
+                # (2) set_num_antennas after transmissions
+                out.append(dict(kind='tdl', layout=lay, ant=None, sw=False,
+                                ops=OPS_ANT))
+                out.append(dict(kind='tdl', layout=lay, ant=[2, 2], sw=sw0,
+                                ops=OPS_ANT[2:]))
+                out.append(dict(kind='su', layout=lay, ant=None, sw=False,
+                                pl=True, ops=OPS_ANT))
+                # (3) path loss changed / removed between transmissions
+                out.append(dict(kind='su', layout=lay, ant=None,
+                                ops=OPS_PL + OPS_PL_OFF))
+                out.append(dict(kind='su', layout=lay, ant=[2, 1], sw=sw0,
+                                ops=OPS_PL + OPS_PL_OFF))
+                out.append(dict(kind='su', layout=lay, ant=[2, 2], sw=sw0,
+                                via='sumimo', pl=True,
+                                ops=OPS_PL_OFF + OPS_PL))
+                out.append(dict(kind='mu', layout=lay, N=[2, 2], sw=sw0,
+                                ops=OPS_PL))
+                out.append(dict(kind='mu', layout=lay, N=[1, 2],
+                                sw=not sw0, pl=True, ops=OPS_PL[2:]))
+                out.append(dict(kind='mumimo', layout=lay, N=[2, 2],
+                                ant=[2, 1], sw=sw0, ops=OPS_PL))
+                # (4) + (5) domains interleaved, repeated reads
+                out.append(dict(kind='tdl', layout=lay, ant=None, ops=OPS_TF))
+                out.append(dict(kind='tdl', layout=lay, ant=[1, 2],
+                                sw=not sw0, ops=OPS_TF))
+                out.append(dict(kind='su', layout=lay, ant=None, pl=True,
+                                ops=OPS_TF))
+                out.append(dict(kind='mu', layout=lay, N=[2, 2], sw=sw0,
+                                pl=True, ops=OPS_TF))
+        # (6) the profile handed over in different ways; one raw profile
+        # object is discretised with two sampling intervals (two channels)
+        for lay, ts, ts2 in (('d013', 0.5, 1.0), ('merge', 1.0, 0.5),
+                             ('d013', 1.0, 0.5)):
+            out.append(dict(kind='tdl', layout=lay, ant=None, build='raw',
+                            ts=ts, ts2=ts2, ops=OPS_SHORT))
+            out.append(dict(kind='tdl', layout=lay, ant=None, build='arrays',
+                            ts=ts, ops=OPS_SHORT))
+            out.append(dict(kind='tdl', layout=lay, ant=[2, 1], sw=True,
+                            build='raw', ts=ts, ts2=ts2, ops=OPS_SHORT))
+            out.append(dict(kind='su', layout=lay, ant=None, pl=True,
+                            build='raw', ts=ts, ts2=ts2, ops=OPS_SHORT))
+            out.append(dict(kind='mu', layout=lay, N=[2, 1], pl=True,
+                            build='arrays' if q else 'raw', ts=ts,
+                            ts2=None if q else ts2, ops=OPS_SHORT))
+        if os.environ.get(FLAG):
+            out += self.flagged_configs()
+        return out
+
+    @staticmethod
+    def flagged_configs():
+        """documented calls that raise on the current /repo (reported, not
+        yet decided): only run with C03_HISTORY_FINDINGS=1"""
+        return [
+            dict(kind='mu', layout='d02', N=[2, 2], pl=True,
+                 flagged='MuChannel.set_pathloss(None)',
+                 ops=[['t', 2], ['pl', None], ['t', 2]]),
+            dict(kind='tdl', layout='d02', ant=[2, 1],
+                 flagged='TdlChannel.set_num_antennas(None,None)',
+                 ops=[['t', 2], ['ant', None, None], ['t', 2]]),
+            dict(kind='su', layout='d02', ant=[1, 2],
+                 flagged='SuChannel.set_num_antennas(None,None)',
+                 ops=[['t', 2], ['ant', None, None], ['t', 2]]),
+        ]
+
+    def _key(self, cfg, A, only=None):
+        if cfg.get('flagged'):
+            cl = sorted({_clause(b) for b in A.bad})
+            return 'C03/%s/%s' % (cfg['flagged'], '+'.join(cl))
+        return _ChannelHarness._key(self, cfg, A, only)
 
 
 # ---------------------------------------------------------------------------
@@ -1389,18 +1773,31 @@ def disc_oracle(delays, powers_dB, Ts):
     return ks, [groups[k] / tot for k in ks]
 
 
-def disc_numeric(delays, powers_dB, Ts):
+def disc_numeric(delays, powers_dB, Ts, Ts2=None):
+    """public API vs. the oracle; with Ts2: the same profile object is
+    discretised with Ts, then Ts2, then Ts again"""
     Fm = repo_module(FADING)
-    bad = []
     try:
         prof = Fm.TdlChannelProfile(np.array(powers_dB, dtype=float),
                                     np.array(delays, dtype=float))
     except Exception as e:  # noqa
         return ['init:exception:' + type(e).__name__]
+    bad = _disc_check(prof, delays, powers_dB, Ts, '')
+    if Ts2 is not None and not bad:
+        bad += _disc_check(prof, delays, powers_dB, Ts2, 're:')
+        bad += _disc_check(prof, delays, powers_dB, Ts, 're:')
+        if prof.Ts is not None or prof.is_discretized or list(
+                prof.tap_delays) != list(delays):
+            bad.append('re:bookkeeping')
+    return bad
+
+
+def _disc_check(prof, delays, powers_dB, Ts, pre):
+    bad = []
     try:
         d = prof.get_discretize_profile(Ts)
     except Exception as e:  # noqa
-        return ['exception:' + type(e).__name__]
+        return [pre + 'exception:' + type(e).__name__]
     ks, pw = disc_oracle(delays, powers_dB, Ts)
     got = [v for v in d.tap_delays]
     if not all(isinstance(v, (int, np.integer)) for v in got):
@@ -1419,7 +1816,7 @@ def disc_numeric(delays, powers_dB, Ts):
     if d.Ts != Ts or d.num_taps != len(got) or d.num_taps_with_padding != \
             got[-1] + 1:
         bad.append('bookkeeping')
-    return bad
+    return [pre + b for b in bad]
 
 
 INIT_OB = 'init:sqrt-argument>=rounding-error'
@@ -1463,6 +1860,12 @@ class Discretize(Harness):
                 dict(taps=3, Ts=1, same=True)]
         if tier != 'quick':
             out += [dict(taps=4, Ts='sym'), dict(taps=4, Ts=1, same=True)]
+        # the same profile object discretised twice (Ts, then Ts2)
+        out += [dict(taps=2, Ts='sym', redisc='2')]
+        if tier != 'quick':
+            out += [dict(taps=2, Ts='sym', redisc='1/2'),
+                    dict(taps=3, Ts=1, redisc='2'),
+                    dict(taps=3, Ts=1, redisc='1/2')]
         return out
 
     def sym(self, ctx, cfg):
@@ -1487,19 +1890,35 @@ class Discretize(Harness):
                 ctx.prove(INIT_OB, args[0] >= Fraction(1, 2**50) * tau[0] *
                           tau[0])
         d = prof.get_discretize_profile(Ts)
+        if not self._obligations(ctx, cv, prof, d, tau, Ts, n, '', 'r'):
+            return
+        if cfg.get('redisc'):
+            # the SAME profile object discretised again with another
+            # sampling interval (a fixed multiple of the symbolic one, which
+            # keeps delay/Ts2 linear in delay/Ts): nothing may be remembered
+            Ts2 = Ts * Fraction(cfg['redisc'])
+            d2 = prof.get_discretize_profile(Ts2)
+            ok = (d2 is not d and prof.Ts is None and d.Ts is Ts and
+                  d2.Ts is Ts2 and not prof.is_discretized)
+            ctx.record('re:bookkeeping', 'unsat' if ok else 'sat',
+                       'structural', model={})
+            self._obligations(ctx, cv, prof, d2, tau, Ts2, n, 're:', 'q')
+
+    def _obligations(self, ctx, cv, prof, d, tau, Ts, n, pre, rn):
         out_d, lin, out_dB = d.tap_delays, d.tap_powers_linear, d.tap_powers_dB
         m = len(out_d)
         ok = (1 <= m <= n and all(isinstance(v, (SInt, int, np.integer))
                                   for v in out_d) and len(lin) == m)
-        ctx.record('integer-delays', 'unsat' if ok else 'sat', 'structural',
-                   model={})
+        ctx.record(pre + 'integer-delays', 'unsat' if ok else 'sat',
+                   'structural', model={})
         if not ok:
-            return
-        ctx.prove('sorted-unique', And(*[out_d[i] < out_d[i + 1]
-                                         for i in range(m - 1)]))
+            return False
+        ctx.prove(pre + 'sorted-unique', And(*[out_d[i] < out_d[i + 1]
+                                               for i in range(m - 1)]))
         # independent specification of the rounded delay of every input tap
-        r = [_spec_round(ctx, tau[i] / Ts, 'r%d' % i) for i in range(n)]
-        ctx.prove('delay=round-half-even', And(
+        r = [_spec_round(ctx, tau[i] / Ts, '%s%d' % (rn, i))
+             for i in range(n)]
+        ctx.prove(pre + 'delay=round-half-even', And(
             *[Or(*[out_d[j] == r[i] for j in range(m)]) for i in range(n)],
             *[Or(*[out_d[j] == r[i] for i in range(n)]) for j in range(m)]))
         # colliding taps: on this path the comparisons made by np.unique
@@ -1511,25 +1930,26 @@ class Discretize(Harness):
         groups = [[i for i in range(n) if _entails(ctx, out_d[j] == r[i])]
                   for j in range(m)]
         if sorted(i for g in groups for i in g) != list(range(n)):
-            ctx.record('merged-powers', 'unknown', 'entailment',
+            ctx.record(pre + 'merged-powers', 'unknown', 'entailment',
                        detail='collision pattern not fixed by the path')
-            return
+            return False
         diffs = []
         for j in range(m):
             tot = SReal(0)
             for i in groups[j]:
                 tot = tot + p[i]
             diffs.append(lin[j] * S - tot)
-        prove_zero(ctx, 'merged-powers', diffs, fallback_exact=False)
+        prove_zero(ctx, pre + 'merged-powers', diffs, fallback_exact=False)
         tot = SReal(0)
         for j in range(m):
             tot = tot + lin[j]
-        prove_zero(ctx, 'sum=1', tot - 1, fallback_exact=False)
-        prove_zero(ctx, 'dB-consistent',
+        prove_zero(ctx, pre + 'sum=1', tot - 1, fallback_exact=False)
+        prove_zero(ctx, pre + 'dB-consistent',
                    [out_dB[j] - cv.linear2dB(lin[j]) for j in range(m)],
                    fallback_exact=False)
-        ctx.prove('memory', SInt._c(d.num_taps_with_padding) ==
+        ctx.prove(pre + 'memory', SInt._c(d.num_taps_with_padding) ==
                   SInt._c(out_d[m - 1]) + 1)
+        return True
 
     @staticmethod
     def _draw(cfg, r):
@@ -1540,7 +1960,9 @@ class Discretize(Harness):
                          r.uniform(0, 6) * ts]) for _ in range(n)]
         if cfg.get('same'):
             tau = [tau[-1]] * n
-        return tau, [r.uniform(-30, 0) for _ in range(n)], ts
+        ts2 = ts * float(Fraction(cfg['redisc'])) if cfg.get(
+            'redisc') else None
+        return tau, [r.uniform(-30, 0) for _ in range(n)], ts, ts2
 
     def replay(self, cfg, name, model):
         m = model_floats(model)
@@ -1550,7 +1972,11 @@ class Discretize(Harness):
             first = ([float(m['tau_%d' % (0 if cfg.get('same') else i)])
                       for i in range(n)],
                      [float(m['dB_%d' % i]) for i in range(n)],
-                     float(m['Ts']) if cfg['Ts'] == 'sym' else 1.0)
+                     float(m['Ts']) if cfg['Ts'] == 'sym' else 1.0,
+                     None)
+            if cfg.get('redisc'):
+                first = first[:3] + (first[2] * float(Fraction(
+                    cfg['redisc'])), )
         except (KeyError, TypeError, ValueError):
             pass
         bad, inp = search_witness(lambda i: disc_numeric(*i), first,
@@ -1561,6 +1987,9 @@ class Discretize(Harness):
                         'point and on 64 draws (ties and collisions included)')
         ks = [round(d / inp[2]) for d in inp[0]]
         cls = 'colliding' if len(set(ks)) < len(ks) else 'distinct'
+        bad = [re.sub('^re:', '', b) for b in bad]
+        if cfg.get('redisc'):
+            cls += ':rediscretised'
         if bad == ['init:exception:ValueError'] and len(set(inp[0])) == 1:
             return dict(reproduced=True, key=INIT_KEY,
                         detail=dict(delays=inp[0], powers_dB=inp[1],
@@ -1593,7 +2022,8 @@ class Discretize(Harness):
         return k
 
 
-HARNESSES = [SliceArith(), TimeDomain(), FreqDomain(), Discretize()]
+HARNESSES = [SliceArith(), TimeDomain(), FreqDomain(), History(),
+             Discretize()]
 
 # concrete profiles are built here, outside any symbolic context
 for _lay in LAYOUTS:
